@@ -191,13 +191,13 @@ theorem kids_around (k : MapKind) (N A S s1 s2 : List HTree) (n : HTree)
 
 theorem insert_existing {f : Forest} {e nm : Nat} {N A S : List HTree} (h : MInv f e nm N A S)
     (k : MapKind) (entry : Value) (hm : k.matches entry = true) (n : HTree) (s1 s2 : List HTree)
-    (hs : Sect.sec k N A = s1 ++ n :: s2) (hkey : keyOf n = entryKey entry)
-    (hs1 : ∀ a ∈ s1, keyOf a ≠ entryKey entry) :
+    (hs : Sect.sec k N A = s1 ++ n :: s2) (key : Nat) (hkey : keyOf n = key)
+    (hs1 : ∀ a ∈ s1, keyOf a ≠ key) :
     let n' := n.setValue (Forest.entryUpdate n.value entry)
     let f' : Forest := { f with roots := withKids f.roots e (preK k N ++ (s1 ++ n' :: s2) ++ postK k A S) }
     f.setValue n.handle (Forest.entryUpdate n.value entry) = f' ∧
     MInv f' e nm (setSecN k N (s1 ++ n' :: s2)) (setSecA k A (s1 ++ n' :: s2)) S ∧
-    (s1 ++ n' :: s2).map entryPair = omInsert ((Sect.sec k N A).map entryPair) (entryKey entry) (payloadOf entry) ∧
+    (s1 ++ n' :: s2).map entryPair = omInsert ((Sect.sec k N A).map entryPair) key (payloadOf entry) ∧
     (s1 ++ n' :: s2).map (·.handle) = (Sect.sec k N A).map (·.handle) := by
   intro n' f'
   have hloc : Located f e (.element nm) ((preK k N ++ s1) ++ n :: (s2 ++ postK k A S)) := by
@@ -238,9 +238,9 @@ theorem insert_existing {f : Forest} {e nm : Nat} {N A S : List HTree} (h : MInv
       rw [Forest.allHandles_setValue]; exact h.below
   · rw [hs]
     simp only [List.map_append, List.map_cons]
-    have e1 : entryPair n = (entryKey entry, payloadOf n.value) := by
+    have e1 : entryPair n = (key, payloadOf n.value) := by
       simp only [entryPair]; rw [← hkey]; rfl
-    have e2 : entryPair n' = (entryKey entry, payloadOf entry) := by
+    have e2 : entryPair n' = (key, payloadOf entry) := by
       simp only [entryPair, hn'v, hu.1, hu.2.1]; rw [← hkey]; rfl
     rw [e1, e2, omInsert_split]
     intro a ha
